@@ -14,9 +14,10 @@
 //        shape : print the tree shape and every thread's yield point after every step (replay of spec walks)
 //   stress <tree> <threads> <order> <count> <seed> <hints 0|1> <permille> <range>
 //        real OpenMP threads; order = sorted | reverse | random | dup | block ; yield handler = seeded perturbation
-//   seq <tree> <ops>      ops: i5,e3,i-7 ...   sequential history; shape + all query results after every step
+//   seq <tree> <ops>      ops: i5,e3,I-7 ...   sequential history (insert / erase); the shape is printed after every step,
+//                         the query phase runs after upper-case operations and at the end
 //
-// stdout per execution:  "J <n> <echo of the job with the explicit schedule>", lines, "E".
+// stdout: "B <job line>" when a job starts; per execution:  "J <n> <echo of the job with the explicit schedule>", lines, "E".
 //   V <json>        an API event for trace validation against spec/SortedSetAbs.tla
 //   T <shape>       tree shape   [ [1 2] 3 [4] ]
 //   S k t pts       scheduler step k ran thread t; pts = yield point of every thread afterwards
@@ -678,7 +679,6 @@ static void seqJob(long& jobNo, const std::string& line, const std::vector<std::
     Tree tree;
     std::printf("J %ld %s\n", jobNo++, line.c_str());
     bool shapes = Tree::max_keys_per_node == 3;
-    bool full = f.size() > 3 && f[3] == "full";  // query after every step (else every 16th step and at the end)
     std::vector<int> universe;
     std::vector<std::string> ops = split(f[2], ',');
     for (auto& o : ops) universe.push_back(std::stoi(o.substr(1)));
@@ -688,7 +688,9 @@ static void seqJob(long& jobNo, const std::string& line, const std::vector<std::
     for (auto& o : ops) {
         int k = std::stoi(o.substr(1));
         step++;
-        if (o[0] == 'i') {
+        char c = o[0];
+        bool query = c == 'I' || c == 'E' || step == (long)ops.size();  // upper case: query phase after this step
+        if (c == 'i' || c == 'I') {
             bool r = tree.insert(k);
             std::printf("V {\"e\":\"ins\",\"k\":%d,\"ok\":%s}\n", k, r ? "true" : "false");
         } else {
@@ -697,10 +699,13 @@ static void seqJob(long& jobNo, const std::string& line, const std::vector<std::
         }
         if (shapes) std::printf("T %s\n", Inspect<Tree>::shape(tree).c_str());
         std::string r = Inspect<Tree>::check(tree, deletable);
-        if (!r.empty()) std::printf("X structural invariant broken after step %ld (%s): %s\n", step, o.c_str(), r.c_str());
-        if (full || step % 16 == 0 || step == (long)ops.size()) {
-            if (!queryPhase(tree, probes, false, full ? std::vector<int>{2 + (int)(step % 3)} : std::vector<int>{1, 2, 3, 5, 8}, bound)) break;
-            if (!full && !queryPhase(tree, probes, true, {}, bound, false)) break;
+        if (!r.empty()) {
+            std::printf("X structural invariant broken after step %ld (%s): %s\n", step, o.c_str(), r.c_str());
+            break;
+        }
+        if (query) {
+            if (!queryPhase(tree, probes, false, {1 + (int)(step % 4), 5 + (int)(step % 11)}, bound)) break;
+            if (step % 2 == 0 && !queryPhase(tree, probes, true, {}, bound, false)) break;
         }
     }
     std::printf("E\n");
@@ -715,6 +720,8 @@ int main() {
         if (line.empty()) continue;
         auto f = split(line, ' ');
         const std::string& tr = f[1];
+        std::printf("B %s\n", line.c_str());  // begin marker: identifies the job if the real code crashes
+        std::fflush(stdout);
         if (f[0] == "coop") {
             souffle::verif::yieldHandler().store(&coopYield);
             if (tr == "s3") coopJob<S3>(jobNo, f, false);
